@@ -69,7 +69,7 @@ pub fn run_seed(base: u64, prop: &str, index: u64) -> u64 {
 }
 
 fn make_scenario(p: &props::PropDef, tier: &str, base: u64, index: u64) -> Scenario {
-    let mut g = sgen::G::new(run_seed(base, p.id, index), tier == "thorough");
+    let mut g = sgen::G::new(run_seed(base, p.id, index / p.block.max(1)), tier == "thorough");
     (p.generate)(&mut g, index)
 }
 
@@ -352,7 +352,7 @@ fn main() {
             for p in props::all() {
                 println!(
                     "{}",
-                    serde_json::json!({"id": p.id, "level": p.level, "rule": p.rule, "needed_probes": p.needed_probes, "quick_runs": p.quick_runs, "thorough_runs": p.thorough_runs})
+                    serde_json::json!({"id": p.id, "level": p.level, "rule": p.rule, "needed_probes": p.needed_probes, "quick_runs": p.quick_runs, "thorough_runs": p.thorough_runs, "flavours": p.flavours, "block": p.block})
                 );
             }
             0
